@@ -975,6 +975,15 @@ def replay(path):
         print("no concrete input in replay file:", json.dumps(d.get("broken"))[:2000])
         print(json.dumps(d.get("first_disagreement"))[:2000])
         return 1
+    if fi.get("runner") == "c14-dataflood":
+        import c14 as _c14
+        c = dict(fi["case"]); c.setdefault("kind", "raw-flood")
+        common.cargo_build(["mux"], "dev")
+        o = common.run_impl("mux", [c], "dev", shards=1)[0]
+        print("input:", json.dumps(c)[:800])
+        print("implementation (last round):", json.dumps(o.get("obs", o)[-1])[:600])
+        print("predicate:", json.dumps(_c14.pred_flood(c, o)))
+        return 0
     if fi.get("runner") == "c14-ctlflood":
         import c14 as _c14
         c = dict(fi["case"]); c.setdefault("kind", "raw-ctlflood")
